@@ -35,7 +35,7 @@ Section Whole.
     forall s rs, OC text s rs -> c_rest (s_cur s) = l -> (List.length l < F)%nat ->
     let '(ts, es, n, rs') := lexeme l (cur_byte s + bb) rs in
     exists (k : nat) s',
-      (1 <= k)%nat /\ (N.of_nat k <= 2 * n) /\ (1 <= n) /\ (n <= len l) /\
+      (1 <= k)%nat /\ (N.of_nat k <= 2 * N.min n (len l)) /\ (1 <= n) /\
       OC text s' rs' /\
       c_rest (s_cur s') = skipn_N (N.to_nat n) l /\
       map (tv bb) (w_toks (s_buf s')) = rev (map rv ts) ++ map (tv bb) (w_toks (s_buf s)) /\
@@ -50,7 +50,7 @@ Section Whole.
     l = c :: r ->
     (forall s rs, OC text s rs -> c_rest (s_cur s) = l -> (List.length l < F)%nat ->
        let '(ts, es, n, rs') := lexeme l (cur_byte s + bb) rs in
-       (1 <= n) /\ (n <= len l) /\
+       (1 <= n) /\
        exists s', run false (lex_token F msep c) s = Done tt s' /\ StepOK text bb s ts es n rs' s') ->
     lexeme_sim l.
   Proof.
@@ -59,8 +59,8 @@ Section Whole.
     specialize (H (s <| s_iters := s_iters s + 1 |>) rs HOC1 Hr Hf).
     change (cur_byte (s <| s_iters := s_iters s + 1 |>)) with (cur_byte s) in H.
     destruct (lexeme l (cur_byte s + bb) rs) as [[[ts es] n] rs'].
-    destruct H as (Hn1 & Hn2 & s' & Hrun & [Ho Hre Ht He Hc]).
-    exists 1%nat, s'. split; [lia|]. split; [lia|]. split; [exact Hn1|]. split; [exact Hn2|].
+    destruct H as (Hn1 & s' & Hrun & [Ho Hre Ht He Hc]).
+    exists 1%nat, s'. split; [lia|]. split; [rewrite El; unfold len; cbn [List.length]; lia|]. split; [exact Hn1|].
     split; [exact Ho|]. split; [rewrite <- Hr; exact Hre|]. split; [exact Ht|]. split; [exact He|].
     pose proof (f_equal (fun t => fst (fst t)) Hc) as Hi. pose proof (f_equal (fun t => snd (fst t)) Hc) as Ha. cbn in Hi, Ha.
     split; [rewrite Hi; reflexivity|]. split; [exact Ha|].
@@ -94,7 +94,7 @@ Section Whole.
     - pose proof (classes (c :: r) ltac:(discriminate) Hmf s rs HOC Hr ltac:(cbn [List.length] in *; lia)) as Hc.
       destruct fr as [|fr]; [lia|]. cbn [reflex_loop].
       destruct (lexeme (c :: r) (cur_byte s + bb) rs) as [[[ts es] n] rs'].
-      destruct Hc as (k & s' & Hk1 & Hk2 & Hn1 & Hn2 & HOC' & Hrest' & Htoks' & Herrs' & Hit' & Hab' & Hloop).
+      destruct Hc as (k & s' & Hk1 & Hk2 & Hn1 & HOC' & Hrest' & Htoks' & Herrs' & Hit' & Hab' & Hloop).
       assert (Hlen : len (c :: r) = N.of_nat m) by (unfold len; rewrite Hm; reflexivity).
       assert (Hk3 : (k <= 2 * m)%nat) by lia.
       destruct (Hloop ltac:(lia) (f - k)%nat last) as (last' & Hstep).
